@@ -95,9 +95,15 @@ def kind_of(a):
 def check_addr(ctx, case):
     """case = {kind: addr, a: structured}: bytes, text and both decodings, three ways"""
     a = case["a"]
-    A = load_addr(a)
     rb, rs = C.to_bytes(a), C.to_text(a)
-    ib = A.to_primitive()
+    try:
+        A = load_addr(a)
+        ib = A.to_primitive()
+        s = A.encode()
+    except Exception as e:                      # a valid combination of parts must be constructible and encodable
+        ctx.violation("constructing / encoding a valid address raises " + type(e).__name__, case, rb.hex(), "exception")
+        ctx.case(case)
+        return
     ctx.count("kind:" + kind_of(a))
     ctx.count("net:" + str(a["net"]))
     if a["stk"]["t"] == "ptr":
@@ -107,7 +113,6 @@ def check_addr(ctx, case):
         if len(ib) == len(rb) and ib[1:] == rb[1:]:
             what = "header byte is not kind<<4 | network"
         ctx.violation(what, case, rb.hex(), ib.hex())
-    s = A.encode()
     if s != rs:
         fid = KF_LEN108 if (s is None and len(rs) > 108) else None
         ctx.violation("text form is not the Bech32 encoding of the bytes under the CIP-5 prefix", case, rs, s, finding=fid)
@@ -346,7 +351,16 @@ def check_b32(ctx, case):
             if back != exp:
                 ctx.violation("bech32.decode(encode(x)) != x", case, exp, back)
     ctx.count("b32:" + ("none" if s is None else "ok"))
+    # the checksum register itself: implementation vs the GF(32) polynomial remainder of BIP-173
+    vals = impl_bech32.bech32_hrp_expand(hrp) + B.to5(data)
+    pm = impl_bech32.bech32_polymod(vals)
+    if pm != B.residue(hrp, B.to5(data)):
+        ctx.violation("bech32_polymod is not the remainder modulo g(x) of BIP-173", case, B.residue(hrp, B.to5(data)), pm)
     if ctx.have_driver():
+        mp = ctx.driver().ok({"op": "bech32.polymod", "values": bytes(vals).hex()})
+        ctx.traces += 1
+        if mp != str(pm):
+            ctx.diff("bech32.polymod", case, mp, str(pm))
         m = ctx.driver().ok({"op": "bech32.enc", "hrp": hrp, "bytes": case["hex"]})
         ctx.traces += 1
         got = {"s": s} if s is not None else {"err": "none"}
@@ -363,7 +377,36 @@ def check_b32(ctx, case):
     ctx.case(case)
 
 
-DISPATCH = {"addr": check_addr, "ptr": check_ptr, "ptrbytes": check_ptrbytes, "bytes": check_bytes, "str": check_str,
+def check_consts(ctx, case):
+    """case = {kind: consts}: the constants of the model against the live objects of the implementation (T1) and
+    against the specifications"""
+    import pycardano.address as pa
+    import pycardano.hash as ph
+    live = {"charset": impl_bech32.CHARSET, "bech32m": str(impl_bech32.BECH32M_CONST),
+            "types": {t.name: str(t.value) for t in pa.AddressType},
+            "networks": {n.name: str(n.value) for n in Network},
+            "hash_size": str(ph.VERIFICATION_KEY_HASH_SIZE) if ph.VERIFICATION_KEY_HASH_SIZE == ph.SCRIPT_HASH_SIZE else "?"}
+    # against the specifications: BIP-173 charset / BIP-350 constant, CIP-19 type table and network tags
+    spec = {"charset": B.CHARSET, "bech32m": str(B.BECH32M),
+            "types": {**{KIND_NAMES[v]: str(v) for v in KIND_NAMES}, "BYRON": "8"},
+            "networks": {"TESTNET": "0", "MAINNET": "1"}, "hash_size": str(C.HASH_LEN)}
+    if live != spec:
+        ctx.violation("constants of the implementation differ from BIP-173 / CIP-19", case, spec, live)
+    if ctx.have_driver():
+        m = ctx.driver().ok({"op": "addr.consts"})
+        ctx.traces += 1
+        gen = m.pop("generator")
+        if m != live:
+            ctx.diff("addr.consts", case, m, live)
+        # generator constants = {2^i} * g(x) over GF(32) (the implementation's are local to bech32_polymod; they are
+        # exercised through the polymod comparison of the b32 stream)
+        exp = [str(sum(B.gf_mul(1 << i, g) << (5 * (5 - k)) for k, g in enumerate(B.G))) for i in range(5)]
+        if gen != exp:
+            ctx.diff("addr.consts/generator", case, gen, exp)
+    ctx.case(case)
+
+
+DISPATCH = {"consts": check_consts, "addr": check_addr, "ptr": check_ptr, "ptrbytes": check_ptrbytes, "bytes": check_bytes, "str": check_str,
             "subst": check_subst, "const": check_const, "hrp": check_foreign_hrp, "b32": check_b32}
 
 
@@ -496,6 +539,7 @@ def corpus():
     h1, h2 = bytes(range(28)).hex(), bytes(range(100, 128)).hex()
     big = str(2 ** 63)
     return [
+        {"kind": "consts"},
         # KF-C15-len108 witness: testnet pointer address with 30 pointer bytes: text form has 111 characters
         {"kind": "addr", "a": {"pay": {"t": "key", "h": h1}, "stk": {"t": "ptr", "slot": big, "tx": big, "cert": big}, "net": 0}},
         {"kind": "addr", "a": {"pay": {"t": "key", "h": h1}, "stk": {"t": "ptr", "slot": big, "tx": big, "cert": big}, "net": 1}},
@@ -523,7 +567,8 @@ def run(ctx):
                 "single-character substitution (32 charset characters + 19 others incl. the separator, excluded, "
                 "upper-case and non-ASCII characters) at every position of sampled addresses of every kind and network, "
                 "and checksums under ~110 other constants; a case is non-trivial if it is a distinct input")
-    ctx.assumptions = ["credentials are 28-byte hashes (enforced by the constructors of VerificationKeyHash / ScriptHash)",
+    ctx.assumptions = ["credentials are 28-byte hashes (enforced by `assert` in the constructors of VerificationKeyHash / "
+                       "ScriptHash, i.e. not under `python -O`)",
                        "Python int = Lean Nat for pointer components (non-negative)",
                        "single-substitution rejection is proved for data-part characters within the charset; substitutions "
                        "by the separator / outside the charset / inside the prefix are covered by exhaustive evaluation "
@@ -570,11 +615,11 @@ def run(ctx):
     for h in range(256):
         for p in shapes:
             dispatch(ctx, {"kind": "bytes", "hex": (bytes([h]) + p).hex()})
-    for _ in range(ctx.budget(3000, 200000)):
+    for _ in range(ctx.budget(3000, 100000)):
         pk, sk = rng.choice(kinds)
         base = C.to_bytes(gen_addr(rng, pk, sk, rng.randrange(2)))
         dispatch(ctx, {"kind": "bytes", "hex": malformed_bytes(rng, base).hex()})
-    for _ in range(ctx.budget(3000, 200000)):
+    for _ in range(ctx.budget(3000, 100000)):
         pk, sk = rng.choice(kinds)
         dispatch(ctx, {"kind": "str", "s": malformed_str(rng, gen_addr(rng, pk, sk, rng.randrange(2)))})
     # bech32 layer on arbitrary prefixes
@@ -591,7 +636,7 @@ def run(ctx):
             if hrp != C.prefix(a):
                 dispatch(ctx, {"kind": "hrp", "a": a, "hrp": hrp})
     # every single-character substitution at every position
-    n_extra = ctx.budget(0, 480)
+    n_extra = ctx.budget(0, 280)
     for _ in range(n_extra):
         pk, sk = rng.choice(kinds)
         sample.append(gen_addr(rng, pk, sk, rng.randrange(2)))
